@@ -120,10 +120,7 @@ Definition teval (rho : nat -> Z) (sigma : nat -> bool) (f : form) : bool :=
   peval (atom_truth rho sigma) f.
 
 (* ---------------- the value Python computes ---------------- *)
-Inductive val := VB (b : bool) | VI (z : Z).
-Definition truthy (v : val) : bool := match v with VB b => b | VI z => negb (z =? 0) end.
-Definition val_eqb (a b : val) : bool :=
-  match a, b with VB x, VB y => Bool.eqb x y | VI x, VI y => x =? y | _, _ => false end.
+(* [val], [truthy], [val_eqb]: BoundModel *)
 
 Definition atom_val (rho : nat -> Z) (sigma : nat -> bool) (a : atom) : val :=
   match a with
